@@ -71,8 +71,30 @@ def generate(rng, tier, ctx):
             cases.append(('k_run %s.scalar_mul_512 a.d=%s b.d=%s / %s:%d' % (SS, h(x), h(y), 'l8' if lay == '64' else 'l', 2 * ns), ('k_run', SS + '.scalar_mul_512')))
             wide = [edge(rng, sb) for _ in range(2 * ns)]
             cases.append(('k_run %s.scalar_reduce_512 l=%s / r.d:%d' % (SS, h(wide), ns), ('k_run', SS + '.scalar_reduce_512')))
+            # carry-maximising inputs: the reduction folds 512 -> 385 -> 258 -> 256 bits by adding (high part) * (2^256 - n);
+            # build l BACKWARDS from a chosen 258-bit intermediate p (and 385-bit m) whose limbs are all-ones where a carry
+            # arrives, so that every carry chain of the last two folding stages is exercised (needs ~2^-64 luck otherwise)
+            NC = (1 << 256) - N
+            def pattern(bits_total, top):
+                v = 0
+                for i in range(bits_total // 64):
+                    v |= rng.choice([(1 << 64) - 1, (1 << 64) - 1, 0, (1 << 64) - 2, rng.r.getrandbits(64)]) << (64 * i)
+                return v | (top << bits_total)
+            pv = pattern(256, rng.choice([1, 1, 2, 0]))                      # stage-3 input p (p4 = 0..2)
+            m_hi = rng.choice([0, 1, rng.r.getrandbits(64), rng.r.getrandbits(129)])
+            m_hi = min(m_hi, pv // NC)
+            mv = (pv - m_hi * NC) + (m_hi << 256)                              # stage-2 input m: m[0..3] + m[4..6]*NC = p
+            if (pv - m_hi * NC) < (1 << 256):
+                l_hi = mv // NC
+                if l_hi >= (1 << 256): l_hi = (1 << 256) - 1 - rng.randint(0, 3)
+                l_lo = mv - l_hi * NC
+                if 0 <= l_lo < (1 << 256):
+                    lv = l_lo | (l_hi << 256)
+                    limbs = [(lv >> (sb * i)) & ((1 << sb) - 1) for i in range(2 * ns)]
+                    cases.append(('k_run %s.scalar_reduce_512 l=%s / r.d:%d' % (SS, h(limbs), ns), ('k_run', SS + '.scalar_reduce_512.carry-crafted')))
             cases.append(('k_run %s.scalar_mul a.d=%s b.d=%s / r.d:%d' % (SS, h(x), h(y), ns), ('k_run', SS + '.scalar_mul')))
             cases.append(('k_run %s.scalar_half a.d=%s / r.d:%d' % (SS, h(sc()), ns), ('k_run', SS + '.scalar_half')))
+            cases.append(('k_run %s.scalar_mul_shift_var a.d=%s b.d=%s shift=%x / r.d:%d' % (SS, h(sc()), h(sc()), rng.choice([256, 257, 272, 319, 320, 383, 384, 384, 447, 448, 500, 511]), ns), ('k_run', SS + '.scalar_mul_shift_var')))
             small = rng.r.getrandbits(rng.randint(1, 250))
             sm = [(small >> (sb * i)) & ((1 << sb) - 1) for i in range(ns)]
             cases.append(('k_run %s.scalar_cadd_bit r.d=%s bit=%x flag=%x / r.d:%d' % (SS, h(sm), rng.randint(0, 250), rng.randint(0, 1), ns), ('k_run', SS + '.scalar_cadd_bit')))
@@ -99,4 +121,58 @@ def generate(rng, tier, ctx):
             v = rng.choice([0, 1, P - 1, rng.scalar(0.5) % P])
             cases.append(('k_run %s.fe_get_b32 a.n=%s / r:32' % (CS, h(fel(v))), ('k_run', CS + '.fe_get_b32')))
             cases.append(('k_run %s.scalar_mul a.d=%s b.d=%s / r.d:%d' % (CS, h(sc()), h(sc()), ns), ('k_run', CS + '.scalar_mul')))
+    # ---- the emulated 128-bit integer (int128_struct): edge patterns on 32-bit halves (carries between the partial products)
+    def half_edge():
+        hi, lo = [rng.choice([0, 1, 2, 0x7FFFFFFF, 0x80000000, 0xFFFFFFFE, 0xFFFFFFFF, rng.r.getrandbits(32)]) for _ in range(2)]
+        return (hi << 32) | lo
+    for _ in range(8 * n):
+        a, b = half_edge(), half_edge()
+        cases.append(('k_run int128struct.umul128 a=%x b=%x / ret hi:1' % (a, b), ('k_run', 'int128struct.umul128')))
+        cases.append(('k_run int128struct.u128_mul a=%x b=%x / r.lo r.hi' % (a, b), ('k_run', 'int128struct.u128_mul')))
+        cases.append(('k_run int128struct.u128_accum_mul a=%x b=%x r.lo=%x r.hi=%x / r.lo r.hi' % (a, b, half_edge(), rng.r.getrandbits(40)), ('k_run', 'int128struct.u128_accum_mul')))
+        cases.append(('k_run int128struct.u128_accum_u64 a=%x r.lo=%x r.hi=%x / r.lo r.hi' % (a, half_edge(), half_edge() >> 1), ('k_run', 'int128struct.u128_accum_u64')))
+        cases.append(('k_run int128struct.u128_rshift n=%x r.lo=%x r.hi=%x / r.lo r.hi' % (rng.choice([0, 1, 31, 32, 33, 52, 63, 64, 65, 100, 127]), half_edge(), half_edge()), ('k_run', 'int128struct.u128_rshift')))
+    # ---- mode F: group-level functions on field values (real function vs FeIR regenerated from group_impl.h)
+    def fv(v): return '%064x' % (v % P)
+    def jac(pre, Q, z, inf):
+        x, y = (Q[0] * z * z % P, Q[1] * z * z * z % P) if Q else (rng.scalar(0.3) % P, rng.scalar(0.3) % P)
+        return '%s.x=%s %s.y=%s %s.z=%s %s.infinity=%x' % (pre, fv(x), pre, fv(y), pre, fv(z), pre, inf)
+    def aff(pre, Q, inf):
+        x, y = Q if Q else (rng.scalar(0.3) % P, rng.scalar(0.3) % P)
+        return '%s.x=%s %s.y=%s %s.infinity=%x' % (pre, fv(x), pre, fv(y), pre, inf)
+    OJ = 'r.x r.y r.z r.infinity'; OG = 'r.x r.y r.infinity'
+    beta = 0x7AE96A2B657C07106E64479EAC3434E99CF0497512F58995C1396C28719501EE
+    for k in range(n // 2):
+        A_, B_ = rng.point(), rng.point()
+        za = rng.choice([1, 2, P - 1, rng.randint(1, P - 1)]); zb = rng.choice([1, 3, rng.randint(1, P - 1)])
+        lamA = (A_[0] * beta % P, A_[1])
+        pairs = [(A_, B_, 0, 0, 'gen'), (A_, A_, 0, 0, 'double'), (A_, pneg(A_), 0, 0, 'neg'), (A_, lamA, 0, 0, 'same-y'), (A_, pneg(lamA), 0, 0, 'opposite-y'),
+                 (A_, B_, 1, 0, 'a-inf'), (A_, B_, 0, 1, 'b-inf'), (A_, B_, 1, 1, 'both-inf')]
+        for a_, b_, ia, ib, cls in pairs:
+            def F(f, line): cases.append(('f_run group.%s %s' % (f, line), ('f_run', f + '.' + cls)))
+            if not ib:
+                F('gej_add_ge', '%s %s / %s' % (jac('a', a_, za, ia), aff('b', b_, 0), OJ))
+                F('gej_add_ge_inplace', '%s %s / %s' % (jac('r', a_, za, ia), aff('b', b_, 0), OJ))
+            F('gej_add_ge_var', '%s %s / %s' % (jac('a', a_, za, ia), aff('b', b_, ib), OJ))
+            F('gej_add_ge_var_inplace', '%s %s / %s' % (jac('r', a_, za, ia), aff('b', b_, ib), OJ))
+            F('gej_add_var', '%s %s / %s' % (jac('a', a_, za, ia), jac('b', b_, zb, ib), OJ))
+            # b given with a z that is NOT 1 through its inverse: (b.x, b.y) are the coordinates on the isomorphic curve
+            bz = rng.randint(1, P - 1); bzi = pow(bz, P - 2, P)
+            bb = (b_[0] * bz * bz % P, b_[1] * bz * bz * bz % P)
+            F('gej_add_zinv_var', '%s %s bzinv=%s / %s' % (jac('a', a_, za, ia), aff('b', bb, ib), fv(bzi), OJ))
+        for a_, ia in ((A_, 0), (A_, 1)):
+            cases.append(('f_run group.gej_double %s / %s' % (jac('a', a_, za, ia), OJ), ('f_run', 'gej_double')))
+            cases.append(('f_run group.gej_double_inplace %s / %s' % (jac('r', a_, za, ia), OJ), ('f_run', 'gej_double_inplace')))
+            cases.append(('f_run group.gej_double_var %s / %s rzr' % (jac('a', a_, za, ia), OJ), ('f_run', 'gej_double_var')))
+            cases.append(('f_run group.gej_neg %s / %s' % (jac('a', a_, za, ia), OJ), ('f_run', 'gej_neg')))
+            cases.append(('f_run group.ge_neg %s / %s' % (aff('a', a_, ia), OG), ('f_run', 'ge_neg')))
+            cases.append(('f_run group.gej_set_ge %s / %s' % (aff('a', a_, ia), OJ), ('f_run', 'gej_set_ge')))
+        sv = rng.randint(1, P - 1)
+        cases.append(('f_run group.gej_rescale %s s=%s / %s' % (jac('r', A_, za, 0), fv(sv), OJ), ('f_run', 'gej_rescale')))
+        cases.append(('f_run group.ge_set_gej_zinv %s zi=%s / %s' % (jac('a', A_, za, 0), fv(pow(za, P - 2, P)), OG), ('f_run', 'ge_set_gej_zinv')))
+        cases.append(('f_run group.ge_set_ge_zinv %s zi=%s / %s' % (aff('a', A_, 0), fv(sv), OG), ('f_run', 'ge_set_ge_zinv')))
+        for xq in (A_[0], B_[0], (A_[0] + 1) % P):
+            cases.append(('f_run group.gej_eq_x_var %s x=%s / ret' % (jac('a', A_, za, 0), fv(xq)), ('f_run', 'gej_eq_x_var')))
+        for Q in (A_, (A_[0], (A_[1] + 1) % P), None):
+            cases.append(('f_run group.ge_is_valid_var %s / ret' % aff('a', Q, 0), ('f_run', 'ge_is_valid_var')))
     return cases
